@@ -215,7 +215,8 @@ pub fn run(report: &Report, thorough: bool) -> Evidence {
                         for _ in 0..n {
                             bss.push(Ev::Bs);
                             match ctx.apply(&Ev::Bs) {
-                                Ok(Out::Sugg(Rend::Empty)) => {
+                                // ("reach the idle state": an empty suggestion AND no session)
+                                Ok(Out::Sugg(Rend::Empty)) if !ctx.ongoing() => {
                                     reached = true;
                                     break;
                                 }
@@ -252,7 +253,10 @@ pub fn run(report: &Report, thorough: bool) -> Evidence {
     // two alphabets: letters whose words split into base + suffix, and punctuation / emoticon
     // characters (compositions without a word part, e.g. the emoticon ;) with its emoji)
     // ... and letter case (t / T are different letters, the tiny dictionary has words for both)
-    let plans: Vec<(&str, usize)> = vec![("aser", if thorough { 6 } else { 5 }), ("a;).:", if thorough { 5 } else { 3 }), ("tTu", if thorough { 5 } else { 4 })];
+    let plans: Vec<(&str, usize)> = vec![("aser", if thorough { 6 } else { 5 }), ("a;).:", if thorough { 5 } else { 3 }), ("tTu", if thorough { 5 } else { 4 }),
+        // the characters the word splitter treats specially: the back-tick produces no output of its own, so a composition can
+        // be non-empty while nothing is shown
+        ("k`:", if thorough { 5 } else { 3 })];
     let mut ph_parts = vec![];
     for (plan_keys, depth) in plans {
       if crate::par::part_enabled("phonetic") {
@@ -338,10 +342,20 @@ pub fn run(report: &Report, thorough: bool) -> Evidence {
                     validated.fetch_add(1, Ordering::Relaxed);
                     let ongoing_after = ctx.ongoing();
                     let opts_c = ctx.opts.clone();
+                    // (for the predicates of KNOWN_FINDINGS.json: what is left of the composition after a backspace)
+                    let left_after_bs = if matches!(step.ev, Ev::Bs) && ongoing_after { ctx.snapshot_json(0)["buffer"].as_str().unwrap_or("").to_string() } else { String::new() };
                     let mk = |kind: &str, class: &str, extra: &[Ev], detail: String| {
                         let mut e = evs.clone();
                         e.extend(extra.iter().cloned());
-                        report.add(Violation::new("C06", kind, class).opts(&opts_c).feat("event", step.ev.short()).events(&e).detail(detail));
+                        report.add(
+                            Violation::new("C06", kind, class)
+                                .opts(&opts_c)
+                                .feat("event", step.ev.short())
+                                .feat("candidate_list", if opts_c.psugg { "on" } else { "off" })
+                                .feat("composition_left_by_the_backspace", left_after_bs.clone())
+                                .events(&e)
+                                .detail(detail),
+                        );
                     };
                     if let Out::Sugg(r) = out {
                         if !r.is_empty() && !ongoing_after {
@@ -365,10 +379,13 @@ pub fn run(report: &Report, thorough: bool) -> Evidence {
                         let n = snap["buffer"].as_str().unwrap_or("").chars().count() + 1;
                         let mut reached = false;
                         for _ in 0..n {
+                            // ("reach the idle state": an empty suggestion AND no session)
                             match ctx.apply(&Ev::Bs) {
                                 Ok(Out::Sugg(Rend::Empty)) => {
-                                    reached = true;
-                                    break;
+                                    if !ctx.ongoing() {
+                                        reached = true;
+                                        break;
+                                    }
                                 }
                                 Ok(_) => {}
                                 Err(_) => break,
